@@ -281,10 +281,8 @@ func VerifC01_Deposit() {
 	c01CheckInvariant(env, "escrow-equals-pending-after-deposit")
 }
 
-var VerifEntries = map[string]func(){
-	"VerifC01_Deposit": VerifC01_Deposit,
-	"VerifC01_Send":      VerifC01_Send,
-	"VerifC01_Cancel":    VerifC01_Cancel,
-	"VerifC01_Build":     VerifC01_Build,
-	"VerifC01_BatchLife": VerifC01_BatchLife,
-}
+var _ = vEntry("VerifC01_Deposit", VerifC01_Deposit)
+var _ = vEntry("VerifC01_Send", VerifC01_Send)
+var _ = vEntry("VerifC01_Cancel", VerifC01_Cancel)
+var _ = vEntry("VerifC01_Build", VerifC01_Build)
+var _ = vEntry("VerifC01_BatchLife", VerifC01_BatchLife)
